@@ -74,6 +74,18 @@ fn conservation(w: &mut World) {
     }
 }
 
+
+/// In these worlds both peers are honest and the only interference is duplication, replay and
+/// forged datagrams: a connection closed with a transport error was closed by one of those.
+fn attribute_honest_rule(out: &mut CaseOut) {
+    for v in out.viol.iter_mut() {
+        if v.prop != "C04" && v.msg.contains("honest peers but connection lost with transport error") {
+            v.prop = "C04";
+            v.msg = format!("connection closed although only duplicated, replayed and forged datagrams interfered: {}", v.msg);
+        }
+    }
+}
+
 fn knobs(seed: u64, lane: Lane) -> Knobs {
     let mut k = Knobs::default();
     k.lane = lane;
@@ -104,6 +116,7 @@ fn dup_case(seed: u64, lane: Lane, trace: bool) -> CaseOut {
     let mut ran = run_honest(&h, trace, 30_000, 600_000_000_000);
     conservation(&mut ran.w);
     let mut out = base_out(&h, &mut ran, trace);
+    attribute_honest_rule(&mut out);
     out.nontrivial = out.cnt.get("c04.duplicate_delta_checks") + out.cnt.get("c04.forged_delivered") > 0;
     out
 }
@@ -187,8 +200,9 @@ fn insensitivity_case(seed: u64, trace: bool) -> CaseOut {
             format!("application-visible outcome differs once forged datagrams are injected: {:?} vs {:?} | {}", a.get(i), b.get(i), h.summary()),
         );
     }
-    let forged = dirty.w.net.fired.get("forge_flip") + dirty.w.net.fired.get("forge_truncate") + dirty.w.net.fired.get("forge_splice") + dirty.w.net.fired.get("forge_garbage") + dirty.w.net.fired.get("forge_tag");
+    let forged = dirty.w.net.fired.get("forge_flip") + dirty.w.net.fired.get("forge_truncate") + dirty.w.net.fired.get("forge_splice") + dirty.w.net.fired.get("forge_garbage") + dirty.w.net.fired.get("forge_tag") + dirty.w.net.fired.get("forge_type");
     let mut out = base_out(&hf, &mut dirty, trace);
+    attribute_honest_rule(&mut out);
     out.cnt.add("c04.forged_injected", forged);
     out.nontrivial = forged > 0;
     out
